@@ -27,7 +27,9 @@ func VerifC15GemtextWidth() {
 		lines = append(lines, p+vGemPayload(verifrt.Choice("len", verifrt.Param("chars", 3)+1)))
 	}
 	width := verifrt.Int("width", 1, verifrt.Param("maxw", 8))
-	out, _ := renderWithLinks(lines, width)
+	m, _, err := NewMarkup(strings.Join(lines, "\n"))
+	verifrt.Assert(err == nil && m != nil, "markup-built")
+	out := m.Render(width)
 	sc := verifrt.Parse(out)
 	verifrt.Assert(sc.OK, "render-well-formed")
 	fits := true
@@ -40,44 +42,20 @@ func VerifC15GemtextWidth() {
 	verifrt.Reach("end")
 }
 
-func encWidth(w int) string {
-	return string([]byte{byte(w), byte(w >> 8), byte(w >> 16), byte(w >> 24), byte(w >> 32), byte(w >> 40), byte(w >> 48), byte(w >> 56)})
-}
-
-func VerifStubRender(lines []string, width int) (string, []string) { return encWidth(width), []string{} }
-
-func VerifC15GemtextCache() {
-	text := "# title\nsome text\n=> https://a/b link"
-	lines := strings.Split(text, "\n")
-	cw := int(verifrt.Int64("cachedWidth"))
-	pre, _ := renderWithLinks(lines, cw)
-	m := &Markup{tree: lines, cached: pre, cachedWidth: cw}
-	for i := 0; i < verifrt.Param("calls", 3); i++ {
-		w := int(verifrt.Int64("w"))
-		got := m.Render(w)
-		ref, _ := renderWithLinks(lines, w)
-		verifrt.Assert(got == ref, "render-equals-cache-free-rendering")
-		verifrt.Assert(m.cachedWidth == w && m.cached == ref, "cache-invariant-reestablished")
-	}
-	m2, _, err := NewMarkup(text)
-	ref80, _ := renderWithLinks(lines, 80)
-	verifrt.Assert(err == nil && m2.cachedWidth == 80 && m2.cached == ref80, "constructor-establishes-cache-invariant")
-	verifrt.Reach("end")
-}
-
-// VerifC15GemtextCacheReal: the cache lemma on the real renderer.
+// VerifC15GemtextCacheReal: "the same text regardless of the widths it was
+// rendered at before", on the real renderer through the public interface: a
+// markup with a rendering history against a freshly built one.
 func VerifC15GemtextCacheReal() {
 	text := []string{"\n# title\nsome longer text here", "=> gemini://a/b link text\n\n", "> quote\n* item\n```\npre\n```"}[verifrt.Choice("doc", 3)]
-	lines := strings.Split(text, "\n")
 	maxw := verifrt.Param("maxw", 12)
-	cw := verifrt.Int("cachedWidth", 1, maxw)
-	pre, _ := renderWithLinks(lines, cw)
-	m := &Markup{tree: lines, cached: pre, cachedWidth: cw}
+	m, _, err := NewMarkup(text)
+	verifrt.Assert(err == nil && m != nil, "markup-built")
+	_ = m.Render(verifrt.Int("cachedWidth", 1, maxw))
 	for i := 0; i < verifrt.Param("calls", 2); i++ {
 		w := verifrt.Int("w", 1, maxw)
 		got := m.Render(w)
-		ref, _ := renderWithLinks(lines, w)
-		verifrt.Assert(got == ref, "render-equals-cache-free-rendering")
+		fresh, _, _ := NewMarkup(text)
+		verifrt.Assert(got == fresh.Render(w), "render-equals-cache-free-rendering")
 	}
 	verifrt.Reach("end")
 }
